@@ -56,7 +56,64 @@ func funcShortName(fn *ssa.Function) string {
 
 // ---- call dispatch ----
 
+// call wraps callInner with the call-site clauses of the enclosing contract.
 func (ex *Exec) call(fr *Frame, st *State, c *ssa.CallCommon, site ssa.Instruction) *Value {
+	name := ""
+	if c.IsInvoke() {
+		name = ifaceMethodName(c.Value.Type(), c.Method)
+	} else if callee := c.StaticCallee(); callee != nil {
+		name = funcShortName(callee)
+	}
+	var clauses []*CallClause
+	if name != "" && ex.discover == nil {
+		clauses = ex.callSiteClauses(fr, name, ex.prog.callOrdinal(site, name))
+	}
+	if len(clauses) == 0 {
+		return ex.callInner(fr, st, c, site)
+	}
+	env := ex.specEnv(fr, st, site.Pos())
+	k := 0
+	if c.IsInvoke() {
+		env.vars["$0"] = ex.eval(fr, st, c.Value)
+		k = 1
+	}
+	for i, a := range c.Args {
+		env.vars[fmt.Sprintf("$%d", i+k)] = ex.eval(fr, st, a)
+	}
+	what := ex.siteWhat(site)
+	for _, cc := range clauses {
+		for _, r := range cc.Requires {
+			cond := ex.evalSpecBool(env, r.Expr)
+			ex.obligeSpec(st, "callpre", what+":"+r.Label, cond, r, site)
+		}
+	}
+	pre := st.clone()
+	res := ex.callInner(fr, st, c, site)
+	env.st = st
+	env.old = pre
+	if res != nil {
+		env.vars["$r"] = res
+		if tt, ok := res.T.(*types.Tuple); ok {
+			for i := 0; i < tt.Len(); i++ {
+				env.vars[fmt.Sprintf("$r%d", i)] = ex.extract(res, i)
+			}
+		} else {
+			env.vars["$r0"] = res
+		}
+	}
+	for _, cc := range clauses {
+		for _, a := range cc.Assumes {
+			ex.assume(st, ex.evalSpecBool(env, a.Expr))
+			ex.usedExterns["call-site assumption in "+funcShortName(fr.fn)+": "+a.Label] = true
+		}
+		for _, g := range cc.Sets {
+			ex.setGhost(st, g.Name, ex.evalSpec(env, g.Expr))
+		}
+	}
+	return res
+}
+
+func (ex *Exec) callInner(fr *Frame, st *State, c *ssa.CallCommon, site ssa.Instruction) *Value {
 	var args []*Value
 	sig := c.Signature()
 	resT := sig.Results()
@@ -330,7 +387,12 @@ func (ex *Exec) callSpec(fr *Frame, st *State, c *FuncContract, args []*Value, r
 	var res *Value
 	if retT != nil {
 		var facts *Term
-		res, facts = ex.havoc(retT, "r."+c.Name)
+		if c.Functional {
+			res = ex.functionalResult(c, args, retT)
+			facts = ex.typeFacts(res)
+		} else {
+			res, facts = ex.havoc(retT, "r."+c.Name)
+		}
 		ex.assume(st, facts)
 		if tt, ok := retT.(*types.Tuple); ok {
 			lo := 0
@@ -835,6 +897,7 @@ func (ex *Exec) builtin(fr *Frame, st *State, name string, args []*Value, retT t
 	case "copy":
 		return ex.builtinCopy(st, args[0], args[1], site)
 	case "delete":
+		ex.mapAccessObligations(fr, st, site)
 		ex.mapDelete(st, args[0], args[1])
 		return nil
 	case "close":
@@ -917,6 +980,39 @@ func (ex *Exec) makeSlice(st *State, t types.Type, ln, cp *Term) *Value {
 // allocBound records an obligation-free note; allocation-size obligations are
 // attached by contracts (alloc clauses) where a property needs them.
 func (ex *Exec) allocBound(st *State, n *Term, site ssa.Instruction) {}
+
+// allocObligation: in functions that handle remote-controlled data (contracts
+// tagged with a property listed in allocProps) every make() must be bounded by
+// the contract's allocbound expression (default: a small constant), so that a
+// remote-declared number cannot drive an allocation.
+var allocProps = []string{"C03"}
+
+func (ex *Exec) allocObligation(fr *Frame, st *State, cp *Term, in ssa.Instruction) {
+	c := fr.contract
+	if c == nil {
+		c = ex.prog.contractFor(fr.fn)
+	}
+	root := ex.rootContract
+	tagged := false
+	for _, p := range allocProps {
+		if root != nil && hasProp(root.Props, p) {
+			tagged = true
+		}
+	}
+	if !tagged || cp.ival != nil && cp.ival.IsInt64() && cp.ival.Int64() <= 65536 {
+		return
+	}
+	var bound *Term = ex.idxLit(4096)
+	if c != nil && c.AllocBound != nil {
+		env := ex.specEnv(fr, st, in.Pos())
+		bound = ex.evalSpec(env, c.AllocBound).C[0]
+	}
+	n := len(ex.obls)
+	ex.oblige(st, "alloc", ex.siteWhat(in), ex.le(cp, bound), in, "allocation size not bounded by received data")
+	if len(ex.obls) > n {
+		ex.obls[n].Props = allocProps
+	}
+}
 
 func (ex *Exec) execSlice(fr *Frame, st *State, in *ssa.Slice) *Value {
 	tb := ex.tb
@@ -1454,3 +1550,24 @@ func (ex *Exec) getGhost(st *State, name string, t types.Type) *Value {
 func (ex *Exec) setGhost(st *State, name string, v *Value) { st.ghost[name] = v }
 
 var _ = strconv.Itoa
+
+// functionalResult: the result components of a deterministic extern are
+// uninterpreted functions of all argument components.
+func (ex *Exec) functionalResult(c *FuncContract, args []*Value, retT types.Type) *Value {
+	var as []*Term
+	var sorts []Sort
+	for _, a := range args {
+		for _, t := range a.C {
+			as = append(as, t)
+			sorts = append(sorts, t.Sort)
+		}
+	}
+	l := ex.L.Of(retT)
+	v := &Value{T: retT, C: make([]*Term, len(l.Comps))}
+	for i, comp := range l.Comps {
+		name := fmt.Sprintf("fn$%s$%d$%d", c.Name, i, len(as))
+		ex.tb.DeclareUF(name, sorts, comp.Sort)
+		v.C[i] = ex.tb.App(name, comp.Sort, as...)
+	}
+	return v
+}
